@@ -6,6 +6,7 @@ import (
 	"os"
 	"os/exec"
 	"path/filepath"
+	"sort"
 	"strings"
 	"time"
 
@@ -164,6 +165,7 @@ type apiResult struct {
 	stats    map[int][2]int   // op index -> FreePageN, PendingPageN
 	flstate  map[int]string
 	fileSize map[int]int64
+	shapes   map[int]string
 }
 
 // runAPI executes ops on a fresh database with the given options.
@@ -179,6 +181,7 @@ func runAPI(dir string, tag string, o optSet, ops []Op, withDecode bool) *apiRes
 	e.DB.StrictMode = o.Strict
 	e.OnOpen = func(db *bolt.DB) { db.StrictMode = o.Strict }
 	defer e.CloseAll()
+	res.shapes = e.Shapes
 	for i, op := range ops {
 		r := e.Do(op)
 		res.impl = append(res.impl, r)
@@ -300,6 +303,51 @@ func checkAPIResult(rep *Report, o optSet, res *apiResult) {
 				fmt.Sprintf("op %d `%s`: bbolt returns %q, the nested-map reference model returns %q [%s]", i, truncate(ops[i].Line(), 80), truncate(impl[i], 60), truncate(spec[i], 60), o),
 				replay(i))
 			break // later differences are consequences
+		}
+	}
+	// --- cursor model (Model/Cursor.lean) on the real tree shape of every cursor's bucket
+	if *flagModel != "" && len(res.shapes) > 0 {
+		var lines, want []string
+		var origin []int
+		ids := make([]int, 0, len(res.shapes))
+		for id := range res.shapes {
+			ids = append(ids, id)
+		}
+		sort.Ints(ids)
+		for _, id := range ids {
+			lines = append(lines, "tree "+res.shapes[id])
+			want = append(want, "ok")
+			origin = append(origin, -1)
+			for i := range impl {
+				o := ops[i]
+				if o.Cur != id || impl[i] == "skip" {
+					continue
+				}
+				switch o.K {
+				case "cfirst", "clast", "cnext", "cprev":
+					lines = append(lines, o.K)
+				case "cseek":
+					lines = append(lines, "cseek "+hx(o.Key))
+				default:
+					continue
+				}
+				want = append(want, impl[i])
+				origin = append(origin, i)
+			}
+		}
+		got, err := runModel([]string{"cursor"}, lines)
+		if err != nil || len(got) != len(lines) {
+			rep.violation("C05", "correspondence", "model-driver-failed", fmt.Sprintf("cursor driver: %v (%d/%d)", err, len(got), len(lines)), replay(len(impl)))
+		} else {
+			rep.Distribution["cursor-model-steps"] += len(lines)
+			for j := range lines {
+				if got[j] != want[j] && !strings.HasPrefix(want[j], "timeout") {
+					rep.Disagree++
+					rep.violation("C05", "correspondence", "cursor-model-vs-impl:"+strings.Fields(lines[j])[0],
+						fmt.Sprintf("op %d `%s` on the real tree shape: bbolt returns %q, the cursor model returns %q", origin[j], lines[j], truncate(want[j], 60), truncate(got[j], 60)), replay(max(origin[j], 0)))
+					break
+				}
+			}
 		}
 	}
 	// --- physical side: the independent reader after every commit/rollback/reopen
